@@ -464,3 +464,39 @@ def install_fp(E):
     E.specs[B + 'fp'] = sp
 
 STRUCT_FNS = ['simplify', 'mk_choice', 'mk_const', 'find', 'new', 'clean']
+
+
+# ------------------------------------------------------------------------------------------------
+# small predicates that other rules take at face value (X2's predicate evaluator, X4's `is_any` test): verify their bodies
+
+def install_helpers(E):
+    BDDT = 'rsbdd::bdd::BDD::'
+    TTE = 'rsbdd::truth_table::TruthTableEntry'
+    def bdd_pred(name, want):
+        def post(I, params, res):
+            o = post_no_panic(I, res, 'HELPER')
+            if o: return o
+            sh = I.shape(params[0].term)
+            if sh is None: sh = I.decide_shape(params[0].term)
+            got = res.t[1] if isinstance(res, VBool) and res.t[0] == 'c' else None
+            return [I.E.check_true(I, got is not None and got == want(sh), 'HELPER: BDD::%s answers %s' % (name, name.replace('_', ' ')), {'shape': sh, 'returned': repr(res)})]
+        sp = FnSpec(BDDT + name, post=post); sp.inline_calls = True
+        E.add(sp)
+    bdd_pred('is_choice', lambda s: s == 'C')
+    bdd_pred('is_const', lambda s: s != 'C')
+    bdd_pred('is_true', lambda s: s == 'T')
+    bdd_pred('is_false', lambda s: s == 'F')
+    def tte_pred(name, variant):
+        def post(I, params, res):
+            o = post_no_panic(I, res, 'HELPER')
+            if o: return o
+            variants = [x['name'] for x in I.E.variants(TTE)]
+            v = I.W.decide(('variant', params[0].term), variants)
+            got = res.t[1] if isinstance(res, VBool) and res.t[0] == 'c' else None
+            return [I.E.check_true(I, got is not None and got == (v == variant), 'HELPER: TruthTableEntry::%s is true exactly for %s' % (name, variant), {'variant': v, 'returned': repr(res)})]
+        sp = FnSpec(TTE + '::' + name, post=post); sp.inline_calls = True
+        E.add(sp)
+    tte_pred('is_true', 'True'); tte_pred('is_false', 'False'); tte_pred('is_any', 'Any')
+
+HELPER_FNS = ['rsbdd::bdd::BDD::is_choice', 'rsbdd::bdd::BDD::is_const', 'rsbdd::bdd::BDD::is_true', 'rsbdd::bdd::BDD::is_false',
+              'rsbdd::truth_table::TruthTableEntry::is_true', 'rsbdd::truth_table::TruthTableEntry::is_false', 'rsbdd::truth_table::TruthTableEntry::is_any']
